@@ -8,11 +8,11 @@ this code base (F19).  What is decided, in the OpenMP configuration with sequent
      never accumulates onto prior contents of C;
  (b) the `#if __M4RI_HAVE_OPENMP` code of M4RM / elimination is functionally correct when executed
      sequentially (same oracles as C01/C02);
- (c) the body of the `parallel for` over tables (mzd_make_table) writes only its own table and index
-     array (dynamic frame check), so iterations are independent."""
+     (a planned frame check of one table-building iteration was dropped: the dfcc instrumentation did not
+     accept the assigns clause, see DESIGN 9.2)."""
 REPLAYABLE = False  # stubs / instrumented program: counterexamples are reported from the solver trace, not re-linked against gcc
 BOUNDS = {
- "quick": "(a) m,k,n symbolic in [1,1100], cutoff any multiple of 64 in [64,576], both routes; (b) M4RM / M4RI / PLUQ queries of the C01/C02 grids in configuration omp; (c) mzd_make_table k in {2,3} frame check",
+ "quick": "(a) m,k,n symbolic in [1,1100], cutoff any multiple of 64 in [64,576], both routes; (b) M4RM / M4RI / PLUQ queries of the C01/C02 grids in configuration omp",
  "thorough": "(b) larger subset",
 }
 OUTSIDE = "pragma text, private/shared clauses, schedule kinds, OMP_NUM_THREADS, nested regions: a change that only edits a pragma or relies on iteration-to-thread assignment is invisible to this check"
@@ -33,6 +33,4 @@ def plan(tier, seed):
             if re.search(rx, q.name) and q.cfg == "ts":
                 c = copy.copy(q); c.defs = dict(q.defs); c.layout = dict(q.layout); c.cfg = "omp"; c.name = q.name + "@omp"; c.group = q.group + "@omp"
                 qs.append(c)
-    for (k, nc) in [(2, 70), (3, 130)]:
-        qs.append(Q("frame-make-table-k%d" % k, "c16_frame.c", {"KK": k, "NC": nc, "VERIF_DFCC": None}, cfg="omp", group="c16-frame", dfcc="scen", timeout=900, mem_gb=8))
     return qs
